@@ -29,7 +29,7 @@ def derive(plan):
     base["faults"] = []
     H = W.run_world(fam_fs.build_world(base))
     h = H["procs"][0]
-    out = []
+    picked = []
     pos = {}
     seen = set()
     for seq, op, path, extra in h["trace"]:
@@ -61,9 +61,16 @@ def derive(plan):
             seen.add(key)
             if plan.get("dump") and f.get("path") == plan["dump"]:
                 f["dump"] = True
-            d = copy.deepcopy(base)
-            d["faults"] = [f]
-            out.append(d)
+            picked.append(f)
+    cap = plan.get("max_faults", 260)
+    if len(picked) > cap:
+        # an even stride over the whole trace rather than its first `cap` fault points
+        picked = [picked[(i * len(picked)) // cap] for i in range(cap)]
+    out = []
+    for f in picked:
+        d = copy.deepcopy(base)
+        d["faults"] = [f]
+        out.append(d)
     return out, len(h["trace"])
 
 
